@@ -1,7 +1,7 @@
 From Coq Require Import List NArith Bool Arith Permutation Lia.
 Import ListNotations.
 Require Import MV.Common.Interleave MV.C05.Model MV.C05.Spec MV.C05.Exec.
-Require Import MV.C05.ProofsSeq MV.C05.ProofsInv MV.C05.ProofsCor MV.C05.ProofsUniq MV.C05.ProofsCons MV.C05.ProofsProg MV.C05.ProofsSnap MV.C05.ProofsEmpty MV.C05.ProofsOrder MV.C05.ProofsSpec MV.C05.ProofsTrace1 MV.C05.ProofsTrace2 MV.C05.ProofsTrace3.
+Require Import MV.C05.ProofsSeq MV.C05.ProofsInv MV.C05.ProofsCor MV.C05.ProofsUniq MV.C05.ProofsCons MV.C05.ProofsProg MV.C05.ProofsSnap MV.C05.ProofsEmpty MV.C05.ProofsOrder MV.C05.ProofsSpec MV.C05.ProofsTrace1 MV.C05.ProofsTrace2 MV.C05.ProofsTrace3 MV.C05.ProofsTrace4 MV.C05.ProofsTrace5.
 Local Open Scope nat_scope.
 Require Import MV.C05.Properties.
 
@@ -185,6 +185,29 @@ Check (C05_spec_ok_on_model_partial : forall c : case,
                                          match fst qs with Some _ => true | None => false end) (rsl rc))
           (rcalls tr 0 rss) = true).
 Print Assumptions C05_spec_ok_on_model_partial.
+Check (C05_spec_ok_on_model_needs_size_bound : exists c, known_class c = None /\ spec_ok c (run_case c) = false).
+Print Assumptions C05_spec_ok_on_model_needs_size_bound.
+Check (C05_spec_final_read_on_model : forall c : case,
+  let '(tr, _, _, final, _) := run_case c in
+  nodupb (concat final) = true /\ forallb (slice_genuine (pinfos tr 0 (progs_of c)) None) final = true).
+Print Assumptions C05_spec_final_read_on_model.
+Check (C05_spec_claim_order_on_model : forall c : case,
+  let '(tr, rss, _, final, _) := run_case c in
+  forallb (fun rc => forallb (fun qs => slice_ordered (pinfos tr 0 (progs_of c)) (snd qs)) (rsl rc)) (rcalls tr 0 rss) = true /\
+  forallb (slice_ordered (pinfos tr 0 (progs_of c))) final = true).
+Print Assumptions C05_spec_claim_order_on_model.
+Check (C05_spec_ok_on_model_partial2 : forall c : case,
+  let '(tr, rss, done, final, anom) := run_case c in
+  let tbl := pinfos tr 0 (progs_of c) in
+  let rc := rcalls tr 0 rss in
+  (anom =? 0)%N && all2 follows (progs_of c) rss
+  && nodupb (flat_map handed (filter is_clear rc)) && forallb (fun c0 => nodupb (handed c0)) rc && nodupb (concat final)
+  && forallb (fun c0 => forallb (fun qs => slice_genuine tbl (fst qs) (snd qs) &&
+                                          match fst qs with Some _ => true | None => false end) (rsl c0)) rc
+  && forallb (slice_genuine tbl None) final
+  && forallb (fun c0 => forallb (fun qs => slice_ordered tbl (snd qs)) (rsl c0)) rc
+  && forallb (slice_ordered tbl) final = true).
+Print Assumptions C05_spec_ok_on_model_partial2.
 Check (C05_popcount_len_refuted : let cf := fst (exec (step BS true true) site (init_config [[CPush 1%N]; [CPush 2%N]; [CData]]) popcount_sched) in
   let k := getb (heap (fst cf)) 0 in
   option_map pcl (nth_error (snd cf) 2) = Some (WD false 0 []) /\
